@@ -12,6 +12,7 @@ canonical record list; Lib/Utf8 vs CPython); (6) verdict.
 import json, os, itertools, concurrent.futures
 from harness import common as C
 from harness.common import cbytes, cbool, clist, cpair
+from harness.props import pyfun_util
 
 PID = "C15"
 KEY_URI = "uri-not-urlparse-stable"
@@ -437,6 +438,11 @@ def run(ctx):
         "parser_total: the input is a byte string (every element < 256); no assumption on urllib",
     ]
     proofs_ok, detail = ctx.check_proofs(lib_targets=["theories/Lib/Bytes.vo", "theories/Lib/Utf8.vo"])
+    # TLV arithmetic of from_bytes and three fixed-size record decoders regenerated from the source and proved
+    # equal to the model (harness/translators/pyfun.py, theories/C15/{Gen,GenEq,PropertyGen}.v, design/PYTRANS.md)
+    gen = pyfun_util.check_generated(ctx, PID)
+    if not gen["ok"]:
+        proofs_ok, detail = False, (detail if not proofs_ok else str(gen["what"])) + gen["detail"]
     ctx.log("proofs:", proofs_ok, detail.splitlines()[0][:200])
 
     # ---- generation -----------------------------------------------------------
@@ -770,7 +776,7 @@ def run(ctx):
     ctx.cov["samples"] = [sample(0), sample(tl[0] if tl else 1), sample(len(parse_in) - 1),
                           {"build": build_in[-1], "impl": {k: v for k, v in rb[-1].items() if k not in ("urls", "reparse")}}]
     ctx.cov["samples"].append({"seq": seq_in[-1], "impl": {k: v for k, v in rq[-1].items() if k != "urls"}})
-    ctx.cov["source_ties"] = [C.source_tie("whad/ble/profile/advdata.py", 24, 1185),
+    ctx.cov["source_ties"] = ctx.cov.get("source_ties", []) + [C.source_tie("whad/ble/profile/advdata.py", 24, 1185),
                               C.source_tie("whad/ble/profile/advdata.py", 1187, 1340),
                               C.source_tie("whad/ble/profile/attribute.py", 513, 600),
                               C.source_tie("whad/hub/ble/bdaddr.py", 1, 106),
